@@ -22,6 +22,7 @@ pub mod frontend;
 pub mod rscript;
 pub mod wscript;
 pub mod discovery_rig;
+pub mod sched;
 
 pub mod c01_reader;
 pub mod c02_converge;
@@ -34,6 +35,7 @@ pub mod c09_badchange;
 pub mod c10_qos;
 pub mod c11_matching;
 pub mod c12_lease;
+pub mod c13_wakeup;
 pub mod c14_msg;
 pub mod c15_discovery_wire;
 pub mod c20_waitack;
@@ -162,6 +164,7 @@ pub fn registry() -> Vec<Property> {
   v.push(c10_qos::property());
   v.push(c11_matching::property());
   v.push(c12_lease::property());
+  v.push(c13_wakeup::property());
   v.push(c14_msg::property());
   v.push(c15_discovery_wire::property());
   v.push(c20_waitack::property());
